@@ -3,6 +3,7 @@ SPECIFICATION Spec
 CONSTANTS
   Shapes <- ShapesV3
   StepVals <- Steps12
+  Broadcast = FALSE
   MaxSlices = 3
   MaxWrites = 0
   MaxReshapes = 0
